@@ -26,6 +26,8 @@ Proof.
   unfold pay, add_transfer, pay_msg. intros H. destruct (is_restricted e d); [|reflexivity].
   destruct (N.eqb_spec amt 0); [contradiction|reflexivity].
 Qed.
+Lemma pay_live_at e amt d to : amt <> 0 -> add_transfer e (is_restricted e d) amt d to = Ok (pay_msg e amt d to).
+Proof. exact (pay_live e amt d to). Qed.
 Lemma pull_in_ok e amt d from m : pull_in e amt d from = Ok m -> m = pull_msg e amt d from /\ amt <> 0.
 Proof.
   unfold pull_in, pull_msg. destruct (N.eqb_spec amt 0); [discriminate|]. intros H. injection H as <-. auto.
